@@ -366,6 +366,45 @@ func runPkgLeg(c pkgLegCase) (f *vh.Failure) {
 	if f := readBack(c, c.Vals, wire, fmtPkg, textFamily, cls); f != nil {
 		return f
 	}
+	wires := [][]byte{wire}
+	rows := [][]valgen.Val{c.Vals}
+	defer func() {
+		if f != nil || textFamily || len(wires) < 2 {
+			return
+		}
+		// the whole result set as a server sends it - format, then the rows one after the other,
+		// each row parsed with the package before it as its predecessor - and looked at only
+		// after the last row has been parsed (what a consumer of a full package queue does)
+		stream := append([]byte{}, enc.B...)
+		for _, w := range wires {
+			stream = append(stream, w...)
+		}
+		pkgs, _, err := pkggen.LibDecodeStream(stream)
+		if err != nil || len(pkgs) != 1+len(wires) {
+			f = vh.Failf("C04/rows-in-sequence", "format and %d rows parsed in sequence: %d packages, err %v", len(wires), len(pkgs), err)
+			return
+		}
+		for ri, vals := range rows {
+			var got []tds.FieldData
+			switch b := pkgs[1+ri].(type) {
+			case *tds.RowPackage:
+				got = b.DataFields
+			case *tds.ParamsPackage:
+				got = b.DataFields
+			}
+			if len(got) != len(vals) {
+				f = vh.Failf("C04/rows-in-sequence", "row %d of %d parsed in sequence has %d fields, sent %d", ri+1, len(rows), len(got), len(vals))
+				return
+			}
+			for i, v := range vals {
+				if err := valgen.Match(v, got[i].Value()); err != nil {
+					f = vh.Failf("C04/rows-in-sequence", "row %d of %d, field %d (%s), looked at after all rows were parsed: %v", ri+1, len(rows), i, valgen.TW{T: v.T, W: v.W}, err)
+					return
+				}
+			}
+		}
+		vh.Label("package-leg:rows-parsed-in-sequence")
+	}()
 	for ri, vals := range c.More {
 		for i, v := range vals {
 			(*fields)[i].SetValue(valgen.ToGo(v))
@@ -375,6 +414,8 @@ func runPkgLeg(c pkgLegCase) (f *vh.Failure) {
 		if err := data.WriteTo(out); err != nil {
 			return vh.Failf("C04/package-reused-write", "row %d through the same package object: writing %s failed: %v", ri+2, describe(pkgLegCase{Vals: vals}), err)
 		}
+		wires = append(wires, out.B)
+		rows = append(rows, vals)
 		if f := readBack(c, vals, out.B, fmtPkg, false, cls); f != nil {
 			f.Class = "C04/package-reused"
 			f.Msg = fmt.Sprintf("row %d through the same package object (%s): %s", ri+2, describe(pkgLegCase{Vals: vals}), f.Msg)
